@@ -358,6 +358,9 @@ class Gen:
         rest = args[1:]
         self.rng.shuffle(rest)
         args = [v] + rest      # onnx.reference Mean/Sum accumulate in place into the first operand
+        if c in ("Max", "Min") and self.rng.random() < 0.4:
+            # literal(s) in the leading position(s), the typed tensor only in the variadic tail
+            args = [self.rng.choice([0, 1, 2, 0.5])] + ([self.rng.choice([1, -1])] if self.rng.random() < 0.3 else []) + [v]
         return self.emit(opb, c, args)
 
     def g_compare(self, opb):
